@@ -85,3 +85,21 @@ def cells_dict(cells):
         if f != 0:
             d[(o, c)] = f
     return d
+
+
+def overlap_events(r, n, dup=0.0):
+    """events over ONE vocabulary: the same names occur as cues and as outcomes (also within one event)"""
+    names = ['a', 'b', 'c', 'x', 'y', 'ä', 'n1', 'n2', 'n3', 'n4']
+    return [event(r, names, names, max_cues=4, max_outs=3, dup=dup) for _ in range(n)]
+
+
+def wide_joint(r, n_cues, n_outs, n_events=3, pos=0):
+    """one event that is wide on BOTH sides (> 1024 cue ids and > 1024 outcome ids) at position `pos`,
+    the others narrow; a second, still wider cue list later when there is room"""
+    cn = ['c%d' % i for i in range(n_cues + 40)]
+    on = ['o%d' % i for i in range(n_outs + 40)]
+    es = [[r.sample(cn[:30], r.randint(1, 5)), r.sample(on[:30], r.randint(0, 4))] for _ in range(n_events)]
+    es[pos] = [cn[:n_cues], on[:n_outs]]
+    if pos + 1 < n_events and r.random() < 0.5:
+        es[pos + 1] = [cn, r.sample(on, 3)]
+    return es
